@@ -1,5 +1,5 @@
-\* generation: every transition of the sequential two-account graph printed once
-SPECIFICATION SeqSpec
+\* generation: every transition of the sequential two-account graph printed once (+ the forced put steps of the pair schedules, "TF|" lines, not followed)
+SPECIFICATION PairSpec
 CONSTANTS
   Accounts <- A2
   Txs <- TxsG2
